@@ -4038,7 +4038,7 @@ func (ce *callEngine) callNativeFunc(ctx context.Context, m *wasm.ModuleInstance
 				panic(wasmruntime.ErrRuntimeUnalignedAtomic)
 			}
 			// Just a bounds check
-			if offset >= memoryInst.Size() {
+			if uint64(offset) >= uint64(len(memoryInst.Buffer)) { // not Size(): it is a uint32 and wraps to 0 for a 4GiB memory.
 				panic(wasmruntime.ErrRuntimeOutOfBoundsMemoryAccess)
 			}
 			res := memoryInst.Notify(offset, uint32(count))
